@@ -7,6 +7,7 @@
 import YtkModel.Generated.FuncsDom
 import YtkModel.Diff
 import YtkProofs.FuncsLemmas
+import YtkProofs.FuncsDomEquals
 
 set_option linter.unusedSimpArgs false
 
@@ -148,7 +149,8 @@ theorem flattenNode_generated_eq_model (n : Node) (p : String) (res : List Funcs
 
 theorem diffList_generated_eq_model (l r : List Node) (p : String) (res : List FuncsDom.diff_Modification) :
     FuncsDom.diffList l r p res = .ok (res ++ G (emitNode (.list l) (.list r) p)) := by
-  simp only [FuncsDom.diffList, GoDom.equals, emitNode]
+  -- `left.Equals(right)` is the GENERATED dispatcher `FuncsDom.Equals` (Equals_generated_eq_model)
+  simp only [FuncsDom.diffList, FuncsDomEquals.Equals_generated_eq_model, Go.Res.ok_bind, GoDom.equals, emitNode]
   by_cases h : equals (.list l) (.list r) = true
   · simp [h, G]
   · simp [h, appendMod_str, flattenList_generated_eq_model, G, modToGo, Mod.mkDel, ModType.name, GoDom.anyNil]
